@@ -33,7 +33,9 @@ type c04Case struct {
 	Launder string `json:"launder"` // array | struct | func
 	Event   string `json:"event"`   // see c04Events
 	Use     string `json:"use"`
-	VM      bool   `json:"vm"`
+	// Idx is the position of the target inside every array step of the path (arrays hold 3 elements)
+	Idx int  `json:"idx"`
+	VM  bool `json:"vm"`
 }
 
 const c04Prelude = `access(all) resource Child { access(all) let id: Int; init(_ id: Int) { self.id = id }
@@ -83,16 +85,26 @@ func c04Type(p string) string {
 	}
 }
 
-func c04Make(p string, id int) string {
+// c04Make builds the holder: arrays hold three elements with the target at
+// position idx, dictionaries hold a second entry "j" next to the target's "k".
+func c04Make(p string, id int, idx int) string {
 	if p == "" {
 		return fmt.Sprintf("attach A() to <- create R(%d)", id)
 	}
-	in := c04Make(p[1:], id)
+	in := c04Make(p[1:], id, idx)
 	switch p[0] {
 	case 'a':
-		return "[<- " + in + "]"
+		var el []string
+		for i := 0; i < 3; i++ {
+			if i == idx {
+				el = append(el, "<- "+in)
+			} else {
+				el = append(el, "<- "+c04Make(p[1:], id+100+10*i, idx))
+			}
+		}
+		return "[" + strings.Join(el, ", ") + "]"
 	case 'd':
-		return "{\"k\": <- " + in + "}"
+		return "{\"j\": <- " + c04Make(p[1:], id+200, idx) + ", \"k\": <- " + in + "}"
 	case 'o':
 		return in
 	default:
@@ -128,10 +140,10 @@ var c04RootEvents = []string{"none", "toVar", "toArray", "toDict", "toFunc", "pa
 var c04InnerEvents = []string{"swapChild", "kidsPop", "mapPop", "optTake"}
 
 // step renders one reference step from reference variable prev.
-func c04Step(kind byte, prev string) string {
+func c04Step(kind byte, prev string, idx int) string {
 	switch kind {
 	case 'a':
-		return prev + "[0]"
+		return prev + fmt.Sprintf("[%d]", idx)
 	case 'd':
 		return prev + "[\"k\"]!"
 	case 'o':
@@ -142,12 +154,12 @@ func c04Step(kind byte, prev string) string {
 }
 
 // owned renders the owned expression of the first n steps (only a and f steps).
-func c04Owned(p string, n int) (string, bool) {
+func c04Owned(p string, n int, idx int) (string, bool) {
 	e := "h"
 	for i := 0; i < n; i++ {
 		switch p[i] {
 		case 'a':
-			e += "[0]"
+			e += fmt.Sprintf("[%d]", idx)
 		case 'f':
 			e += ".v"
 		default:
@@ -173,9 +185,9 @@ func c04Render(c c04Case) (src string, invalid bool, want string, ok bool) {
 	T0 := c04Type(p)
 	if stored {
 		w("let acct = getAuthAccount<auth(Storage) &Account>(0x1)")
-		w("acct.storage.save(<- %s, to: /storage/h)", c04Make("", 10))
+		w("acct.storage.save(<- %s, to: /storage/h)", c04Make("", 10, 0))
 	} else {
-		w("var h: @%s <- %s", T0, c04Make(p, 10))
+		w("var h: @%s <- %s", T0, c04Make(p, 10, c.Idx))
 	}
 	// reference to R
 	switch {
@@ -186,7 +198,7 @@ func c04Render(c c04Case) (src string, invalid bool, want string, ok bool) {
 			w("let s0 = (&h as &%s)!", T0)
 			prev := "s0"
 			for i := 1; i < len(p); i++ {
-				w("let s%d = %s", i, c04Step(p[i], prev))
+				w("let s%d = %s", i, c04Step(p[i], prev, c.Idx))
 				prev = "s" + strconv.Itoa(i)
 			}
 			w("let tR = %s", prev)
@@ -194,7 +206,7 @@ func c04Render(c c04Case) (src string, invalid bool, want string, ok bool) {
 			w("let s0 = &h as &%s", T0)
 			prev := "s0"
 			for i := 0; i < len(p); i++ {
-				w("let s%d = %s", i+1, c04Step(p[i], prev))
+				w("let s%d = %s", i+1, c04Step(p[i], prev, c.Idx))
 				prev = "s" + strconv.Itoa(i+1)
 			}
 			w("let tR = %s", prev)
@@ -204,13 +216,13 @@ func c04Render(c c04Case) (src string, invalid bool, want string, ok bool) {
 		if p == "" {
 			w("let tR = &h as &R")
 		} else {
-			own, okp := c04Owned(p, len(p)-1)
+			own, okp := c04Owned(p, len(p)-1, c.Idx)
 			if !okp {
 				return "", false, "", false
 			}
 			switch p[len(p)-1] {
 			case 'a':
-				w("let tR = &%s[0] as &R", own)
+				w("let tR = &%s[%d] as &R", own, c.Idx)
 			case 'f':
 				w("let tR = &%s.v as &R", own)
 			case 'd':
@@ -316,7 +328,7 @@ func c04Render(c c04Case) (src string, invalid bool, want string, ok bool) {
 		cleanup = nil
 		moved = "all"
 	case ev == "swap":
-		w("var other: @%s <- %s", T0, c04Make(p, 20))
+		w("var other: @%s <- %s", T0, c04Make(p, 20, c.Idx))
 		w("h <-> other")
 		cleanup = []string{"destroy h", "destroy other"}
 		moved = "all"
@@ -328,20 +340,20 @@ func c04Render(c c04Case) (src string, invalid bool, want string, ok bool) {
 		if len(p) < n {
 			return "", false, "", false
 		}
-		own, okp := c04Owned(p, n-1)
+		own, okp := c04Owned(p, n-1, c.Idx)
 		if !okp {
 			return "", false, "", false
 		}
 		rest := p[n:]
 		switch p[n-1] {
 		case 'a':
-			w("let m <- %s.remove(at: 0)", own)
+			w("let m <- %s.remove(at: %d)", own, c.Idx)
 		case 'd':
 			w("let m <- %s.remove(key: \"k\")!", own)
 		case 'o':
 			w("let m <- %s <- nil", own)
 		case 'f':
-			w("let m <- %s.v <- %s", own, c04Make(rest, 30))
+			w("let m <- %s.v <- %s", own, c04Make(rest, 30, c.Idx))
 		}
 		cleanup = append([]string{"destroy m"}, cleanup...)
 		moved = "all"
@@ -350,14 +362,14 @@ func c04Render(c c04Case) (src string, invalid bool, want string, ok bool) {
 		if p == "" {
 			return "", false, "", false
 		}
-		own, okp := c04Owned(p, len(p)-1)
+		own, okp := c04Owned(p, len(p)-1, c.Idx)
 		if !okp {
 			return "", false, "", false
 		}
 		w("var other <- create R(40)")
 		switch p[len(p)-1] {
 		case 'a':
-			w("%s[0] <-> other", own)
+			w("%s[%d] <-> other", own, c.Idx)
 		case 'f':
 			w("%s.v <-> other", own)
 		default:
@@ -564,12 +576,20 @@ func c04Cases(thorough bool) []c04Case {
 						for ui, u := range c04Uses[c04RefType(ref)] {
 							// quick: every (path, style, ref, event) with launder x use on a diagonal
 							// plus the full launder x use product for the depth <= 1 paths
-							if !thorough && len(p) == 2 && (li+ui)%3 != 0 {
-								continue
+							idxs := []int{0}
+							if strings.Contains(p, "a") {
+								idxs = []int{0, 1, 2}
 							}
-							c := c04Case{Path: p, Style: st, Ref: ref, Launder: l, Event: ev, Use: u}
-							if _, _, _, ok := c04Render(c); ok {
-								out = append(out, c)
+							for _, idx := range idxs {
+								// quick: the non-zero positions on a thinner diagonal
+								// (depth-2 paths always on the diagonal)
+								if !thorough && (idx > 0 || len(p) == 2) && (li+ui+idx)%3 != 0 {
+									continue
+								}
+								c := c04Case{Path: p, Style: st, Ref: ref, Launder: l, Event: ev, Use: u, Idx: idx}
+								if _, _, _, ok := c04Render(c); ok {
+									out = append(out, c)
+								}
 							}
 						}
 					}
@@ -595,7 +615,11 @@ func c04Sig(c c04Case, verdict string) string {
 	if c.VM {
 		eng = "vm"
 	}
-	return fmt.Sprintf("%s|event=%s|path=%s/%s|ref=%s|%s", verdict, c.Event, c.Path, c.Style, c.Ref, eng)
+	pos := ""
+	if c.Idx > 0 {
+		pos = "@nonfirst"
+	}
+	return fmt.Sprintf("%s|event=%s|path=%s%s/%s|ref=%s|%s", verdict, c.Event, c.Path, pos, c.Style, c.Ref, eng)
 }
 
 func runC04(env *mc.Env) {
@@ -629,7 +653,7 @@ func runC04(env *mc.Env) {
 			}
 			env.R.Class(class, func() any { return c })
 			if invalid {
-				env.R.Nontrivial(fmt.Sprintf("%s|%s|%s|%s", c.Path, c.Style, c.Ref, c.Event))
+				env.R.Nontrivial(fmt.Sprintf("%s@%d|%s|%s|%s", c.Path, c.Idx, c.Style, c.Ref, c.Event))
 			}
 		}
 	})
@@ -697,7 +721,7 @@ func replayC04(env *mc.Env, raw json.RawMessage) (bool, string) {
 func init() {
 	mc.Register(&mc.Check{
 		ID: "C04",
-		Rule: "every straight-line script {holder path of depth <= 2 over array/dict/optional/field, or storage} x {reference taken by chained steps or directly} x {referent: the resource, its child field, array element, dictionary value, optional field, attachment} x " +
+		Rule: "every straight-line script {holder path of depth <= 2 over array (3 elements, target at position 0, 1 or 2) / dictionary (2 entries) / optional / field, or storage} x {reference taken by chained steps or directly} x {referent: the resource, its child field, array element, dictionary value, optional field, attachment} x " +
 			"{laundered through array element / struct field / identity function} x {event: none, move of the root to variable/array/dictionary/function/identity function/storage, destroy, swap, removal at path level 1 or 2, element swap, replacement or removal of each inner resource} x {use: field read, call, nested member, index, struct field, attachment access}, on both engines; " +
 			"oracle: the use must fail with a non-internal error raised at the use iff the referent or an ancestor moved since the reference was taken, else it must succeed with the expected value; plus storage references after load / replace by same type / replace by other type / re-store; non-trivial = distinct (path, style, referent, event) whose reference had to be invalid and failed at the use",
 		Assumptions: []string{
